@@ -40,13 +40,15 @@ def renderResult : Option Int → String
 def zipIdx {α : Type} (xs : List α) : List (Nat × α) := (List.range xs.length).zip xs
 
 /-- `failed`: the threads whose run failed (empty for a clean run, the usual case): their results
-    are not compared, and the count of a module only they requested is undetermined. -/
-def handlePar (mods : List Sexp) (progs : List Sexp) (failed : List Nat) (sched : List Sexp) : String :=
+    are not compared, and the count of a module only they requested is undetermined.
+    `lost`: the process of the run hung or died, so that no body count was observed at all. -/
+def handlePar (mods : List Sexp) (progs : List Sexp) (failed : List Nat) (lost : Bool)
+    (sched : List Sexp) : String :=
   match mods.mapM parseMod, progs.mapM parseProg, sched.mapM parseEv with
   | some mods, some progs, some evs =>
     let cells := mrun mods evs
     let counts := (zipIdx cells).map (fun (m, s) =>
-      if undetermined mods progs failed m then "?" else toString s.evals)
+      if lost || undetermined mods progs failed m then "?" else toString s.evals)
     let results := (zipIdx progs).map (fun (t, p) =>
       if failed.contains t then "(failed)" else renderResult (progValue cells t p))
     "(counts " ++ " ".intercalate counts ++ ") (results " ++ " ".intercalate results ++ ")"
@@ -61,12 +63,15 @@ def parseScen : Sexp → Option Scen
 
 def handle : List Sexp → String
   | [.atom "par", .list (.atom "mods" :: mods), .list (.atom "progs" :: progs),
-      .list (.atom "sched" :: sched)] => handlePar mods progs [] sched
+      .list (.atom "sched" :: sched)] => handlePar mods progs [] false sched
   | [.atom "par", .list (.atom "mods" :: mods), .list (.atom "progs" :: progs),
       .list (.atom "failed" :: failed), .list (.atom "sched" :: sched)] =>
     match natList failed with
-    | some failed => handlePar mods progs failed sched
+    | some failed => handlePar mods progs failed false sched
     | none => "bad-request"
+  | [.atom "par", .list (.atom "mods" :: mods), .list (.atom "progs" :: progs),
+      .list [.atom "lost"], .list (.atom "sched" :: sched)] =>
+    handlePar mods progs (List.range progs.length) true sched
   | .atom "locks" :: n :: ops =>
     match n.toNat?, ops.mapM parseScen with
     | some n, some ops =>
